@@ -1,3 +1,5 @@
+//go:build !kq
+
 package main
 
 // The reference model M: a small sequential specification of one Watcher,
